@@ -76,25 +76,32 @@ def scanDigits (acc nd : Nat) (prevUS : Bool) : Str → Option (Nat × Nat × St
     else if prevUS then none
     else some (acc, nd, c :: cs)
 
-/-- `PyLong_FromString(buf, &end, 10)` plus the `end == buf + len` test, on the ASCII buffer.
-`maxDigits = 0` means no limit. -/
-def pyIntAscii (maxDigits : Nat) (s : Str) : Option Int :=
-  let s1 := s.dropWhile isCSpace
-  let (neg, s2) :=
-    match s1 with
-    | 43 :: r => (false, r)
-    | 45 :: r => (true, r)
-    | r => (false, r)
-  match s2 with
-  | 95 :: _ => none                       -- leading underscore
+/-- the optional sign -/
+def stripSign : Str → Bool × Str
+  | 43 :: r => (false, r)
+  | 45 :: r => (true, r)
+  | r => (false, r)
+
+/-- after the sign: "leading underscore not allowed", the digit loop, at least one digit, the digit
+limit (`maxDigits = 0`: none), trailing Py_ISSPACE, and nothing may be left -/
+def pyIntUnsigned (maxDigits : Nat) (s : Str) : Option Nat :=
+  match s with
+  | 95 :: _ => none
   | _ =>
-    match scanDigits 0 0 false s2 with
+    match scanDigits 0 0 false s with
     | none => none
     | some (v, nd, rest) =>
       if nd == 0 then none
       else if maxDigits != 0 && nd > maxDigits then none
       else if !(rest.dropWhile isCSpace).isEmpty then none
-      else some (if neg then -(Int.ofNat v) else Int.ofNat v)
+      else some v
+
+/-- `PyLong_FromString(buf, &end, 10)` plus the `end == buf + len` test, on the ASCII buffer -/
+def pyIntAscii (maxDigits : Nat) (s : Str) : Option Int :=
+  let p := stripSign (s.dropWhile isCSpace)
+  match pyIntUnsigned maxDigits p.2 with
+  | none => none
+  | some v => some (if p.1 then -(Int.ofNat v) else Int.ofNat v)
 
 /-- `int(s)` with explicit tables -/
 def pyIntWith (spaces zeros : List Nat) (maxDigits : Nat) (s : Str) : Option Int :=
